@@ -126,3 +126,130 @@ def attach_loop_monitor():
 
     FS.get_iteration_values = get_iteration_values
     _attached.add("loop")
+
+
+def attach_inline_monitor():
+    """ExpressionLowerer.lower_function_call_inline: caller state restored exactly after each call;
+    MemoryLowerer.lower_mem_decl: one fresh memory id per executed declaration (C15)."""
+    if "inline" in _attached:
+        return
+    driver.setup()
+    from dsl_compiler.src.lowering import expression_lowerer as el_mod
+    from dsl_compiler.src.lowering import memory_lowerer as ml_mod
+
+    EL = el_mod.ExpressionLowerer
+    orig = EL.lower_function_call_inline
+    depth = [0]
+
+    @functools.wraps(orig)
+    def lower_function_call_inline(self, expr):
+        p = self.parent
+        before_params = dict(p.param_values)
+        before_signals = dict(p.signal_refs)
+        before_entities = dict(p.entity_refs)
+        depth[0] += 1
+        try:
+            res = orig(self, expr)
+        finally:
+            depth[0] -= 1
+        try:
+            rec = {"func": getattr(expr, "name", "?"), "depth": depth[0] + 1}
+            bad = []
+            if dict(p.param_values) != before_params:
+                bad.append("param_values not restored")
+            if {k: id(v) for k, v in p.signal_refs.items()} != {k: id(v) for k, v in before_signals.items()}:
+                changed = [k for k in set(p.signal_refs) | set(before_signals)
+                           if p.signal_refs.get(k) is not before_signals.get(k)]
+                bad.append("signal_refs changed: %s" % sorted(changed)[:5])
+            clobbered = [k for k, v in before_entities.items() if p.entity_refs.get(k) != v]
+            if clobbered:
+                bad.append("caller entity names rebound by the callee: %s" % sorted(clobbered)[:5])
+            if bad:
+                rec["suspect"] = True
+                rec["problems"] = bad
+            INLINE_LOG.append(rec)
+        except Exception:  # noqa: BLE001
+            pass
+        return res
+
+    EL.lower_function_call_inline = lower_function_call_inline
+
+    ML = ml_mod.MemoryLowerer
+    orig_decl = ML.lower_mem_decl
+    seen_ids = {}
+
+    @functools.wraps(orig_decl)
+    def lower_mem_decl(self, stmt):
+        r = orig_decl(self, stmt)
+        try:
+            mid = self.parent.memory_refs.get(stmt.name)
+            key = id(self.ir_builder)
+            ids = seen_ids.setdefault(key, set())
+            rec = {"memdecl": stmt.name, "id": mid}
+            if mid in ids:
+                rec["suspect"] = True
+                rec["problems"] = ["memory id %s re-used by a second executed declaration" % mid]
+            ids.add(mid)
+            if len(seen_ids) > 8:
+                for k in list(seen_ids)[:-4]:
+                    seen_ids.pop(k, None)
+            INLINE_LOG.append(rec)
+        except Exception:  # noqa: BLE001
+            pass
+        return r
+
+    ML.lower_mem_decl = lower_mem_decl
+    _attached.add("inline")
+
+
+def attach_import_monitor():
+    """preprocess_imports / resolve_import_path: resolved paths, how often each file's text is
+    inlined, number of expansion calls (C17)."""
+    if "imports" in _attached:
+        return
+    driver.setup()
+    import re
+
+    from dsl_compiler.src.parsing import parser as parser_mod
+    from dsl_compiler.src.parsing import preprocessor as pp_mod
+
+    orig_pp = pp_mod.preprocess_imports
+    orig_res = pp_mod.resolve_import_path
+    depth = [0]
+
+    def resolve_import_path(import_path, base_path=None):
+        r = orig_res(import_path, base_path)
+        try:
+            import os
+
+            IMPORT_LOG.append({"resolve": str(import_path), "base": str(base_path), "to": str(r), "cwd": os.getcwd()})
+        except Exception:  # noqa: BLE001
+            pass
+        return r
+
+    def preprocess_imports(source_code, base_path=None, processed_files=None):
+        depth[0] += 1
+        try:
+            out = orig_pp(source_code, base_path, processed_files)
+        finally:
+            depth[0] -= 1
+        try:
+            rec = {"expand": True, "depth": depth[0]}
+            if depth[0] == 0:
+                marks = re.findall(r"^# --- Imported from (.*) ---$", out, flags=re.M)
+                cnt = {}
+                for m in marks:
+                    cnt[m] = cnt.get(m, 0) + 1
+                rec["inlined"] = cnt
+                if any(v > 1 for v in cnt.values()):
+                    rec["suspect"] = True
+                    rec["problems"] = ["file text inlined more than once: %s" % {k: v for k, v in cnt.items() if v > 1}]
+            IMPORT_LOG.append(rec)
+        except Exception:  # noqa: BLE001
+            pass
+        return out
+
+    pp_mod.resolve_import_path = resolve_import_path
+    pp_mod.preprocess_imports = preprocess_imports
+    parser_mod.preprocess_imports = preprocess_imports
+    _attached.add("imports")
